@@ -8,6 +8,16 @@ BASELINE = ("cd /repo && cargo nextest run --workspace --no-fail-fast --tool-con
 
 # id -> (engine, category, technique, level text, level note, design ref)
 CHECKS = {
+ "C02": ("mc-graph", "translation_validation",
+         "explicit-state BFS over constructive graph operations (E1) + independent section-level re-reading of every encoding (E2), provenance equality",
+         "Every composition reachable by instantiate/alias/import/set-argument/export/name within the depth from 6 seed states over a library built for ambiguity (same-typed slots and candidates, one package instantiated several times, diamonds, aliases of aliases of nested instances, multi-name exports) is encoded in both dependency modes; each encoding is re-read by an independent walker that rebuilds the index spaces with provenance, and the multiset of instantiations with per-name argument provenance, export bindings, alias sources, embedded component hashes (each once, byte-identical) and name-section entries must equal the graph's denotation read through public queries.",
+         "Trusts the E2 reader (harness/mc-core/src/e2.rs, over wasmparser payloads) and wasmparser's validator for types. Implicit imports are identified up to their semver track here (C03 pins the name).",
+         "DESIGN.md §4 E2, §5 C02, A.2"),
+ "C03": ("mc-graph", "model_checking",
+         "explicit-state BFS (E1) over versioned-import libraries with order-insensitive state grouping; implied-interface oracle from the reference merge",
+         "All compositions of up to 4 (quick) / 5 (thorough) nodes over 10 packages requiring a:b/i unversioned and at 0.2.0/0.2.1/0.2.2(conflicting)/0.3.0/1.0.0/1.2.0/0.0.1/1.0.0-rc.1 plus plain function imports with equal and conflicting types, with explicit imports and satisfied slots, under every creation order BFS produces: the encoded import/export names, kinds and canonical types must equal the interface implied by the reference model (explicit imports, one import per semver track named for the highest version with the union type, exports = designated names), agree with imports(), and be identical for all states of one order-insensitive group.",
+         "Trusts the reference merge (A.3) and wasmparser's type tables for canonical types. No verdict where an explicit and an implicit import share a track under different names (statement silent); import sequence is not compared.",
+         "DESIGN.md §5 C03, A.3"),
  "C06": ("mc-graph", "model_checking",
          "explicit-state BFS over the real CompositionGraph in lock-step with a reference model (E1)",
          "Level-synchronous BFS over the real graph with the full operation alphabet (register/unregister/instantiate/alias/import/set+unset argument/export/unexport/define type/name/remove) and every live identifier, from the empty graph and 6 hand-built seed states, depth 3 (quick) / 4 (thorough). Every transition's result class must be one the rustdoc admits for the model state; every new state is checked on all public queries against the model, on the H1 internal invariants, on encode under 4 option vectors against the predicted outcome and the reference validator, and by replaying its history on a fresh graph.",
